@@ -22,7 +22,7 @@ func init() {
 				"local on every recovered path before the catch list runs.  A new non-deferred state change anywhere in the interpreter therefore creates a new obligation here.  (C13.buffer) the body " +
 				"runs with Writer = a fresh bytes.Buffer installed before the body with a deferred restore registered after the handler (so it runs first); the buffer is copied to the saved writer " +
 				"exactly at one site, only under the fact that nothing was recovered; the catch list runs only on the recovered path, once, with no recover around it.  (C13.catchvar) the catch " +
-				"variable is stored into a scope pushed for it and popped after the catch list.  (C13.parse) parseTry ends its list at catch or end; parseCatch accepts only an identifier.",
+				"variable is stored into a scope pushed for it and popped after the catch list.  (C13.parse) parseTry ends its list at catch or end; parseCatch accepts only an identifier. (C13.buffer body-guarded) on every path of executeTry the handler's defer statement has run before the try body list is executed: no fast path executes the body unguarded.",
 			NotDecided:  "the bytes the body would have produced; errors raised by io.Copy; panics that are not errors (re-panicked by Runtime.recover, C12).",
 			Assumptions: []string{"deferred calls run in LIFO order (Go semantics)"},
 			Trusted:     commonTrusted,
@@ -110,6 +110,39 @@ func runC13(c *an.Ctx) {
 		return
 	}
 	c.FnsAnalysed[handler.Name] = true
+
+	// every execution of the try body is guarded: on every path of executeTry, the handler's defer statement has run
+	// before the body list is executed (a fast path in front of the defers — "nothing to hold back when the output
+	// is discarded anyway" — executes the body with no recover, no restore and no catch)
+	{
+		unguarded := token.NoPos
+		nBody := 0
+		gx := p.NewExplorer(try, an.Hooks{
+			Defer: func(x *an.Explorer, d *ast.DeferStmt, st *an.State) {
+				if d.Pos() == handlerDefer {
+					st.Set("guarded", "1")
+				}
+			},
+			Call: func(x *an.Explorer, call *ast.CallExpr, st *an.State) {
+				if an.IsCallTo(info, call, execList) && len(call.Args) == 1 && p.FieldKey(info, call.Args[0]) == "TryNode.List" {
+					nBody++
+					if st.Get("guarded") == "" && !unguarded.IsValid() {
+						unguarded = call.Pos()
+					}
+				}
+			},
+		})
+		gx.Run(nil)
+		c.States += gx.Visited
+		switch {
+		case gx.Undecided != "":
+			c.Undecided("C13.buffer", "(*Runtime).executeTry/body-guarded", try.Pos(), "%s", gx.Undecided)
+		case unguarded.IsValid():
+			c.Bad("C13.buffer", "(*Runtime).executeTry/body-guarded", unguarded, nil, "executeTry executes the try body on a path on which its recover handler has not been registered: a failure of the body is not contained, nothing is restored and the catch body does not run")
+		default:
+			c.Check(nBody > 0, "C13.buffer", "(*Runtime).executeTry/body-guarded", try.Pos(), "the try body is executed only after the recover handler was registered", "executeTry never executes the try body")
+		}
+	}
 
 	// ---------------------------------------------------------------- C13.restore
 	fields, scopeWhere := unwindState(c)
@@ -407,7 +440,40 @@ func runC13(c *an.Ctx) {
 			laterRecover = true
 		}
 	}
-	okOrder := restoreDefer.IsValid() && handlerDefer < restoreDefer && restoreDefer < bodyCall && !laterRecover
+	// … or the handler itself puts the Writer back, first thing: on every path through it the store precedes the
+	// catch list and the copy of the buffer, and every exit has made it
+	handlerRestores := false
+	if !restoreDefer.IsValid() {
+		handlerRestores = true
+		nExit := 0
+		wx := p.NewExplorer(handler, an.Hooks{
+			PreAssign: func(x *an.Explorer, lhs, rhs ast.Expr, stmt ast.Node, st *an.State) {
+				if p.FieldKey(hinfo, lhs) == "escapeeWriter.Writer" && rhs != nil && isWriter(handler, rhs) {
+					st.Set("wrest", "1")
+				}
+			},
+			Call: func(x *an.Explorer, call *ast.CallExpr, st *an.State) {
+				name := an.CalleeName(hinfo, call)
+				if (name == execList || name == "io.Copy" || name == "(*bytes.Buffer).WriteTo") && st.Get("wrest") == "" {
+					handlerRestores = false
+				}
+			},
+		})
+		wx.Run(nil)
+		c.States += wx.Visited
+		for _, ex := range wx.Exits {
+			if ex.Kind == an.ExitReturn {
+				nExit++
+				if ex.State.Get("wrest") == "" {
+					handlerRestores = false
+				}
+			}
+		}
+		if nExit == 0 || wx.Undecided != "" {
+			handlerRestores = false
+		}
+	}
+	okOrder := ((restoreDefer.IsValid() && handlerDefer < restoreDefer && restoreDefer < bodyCall) || (handlerRestores && handlerDefer < bodyCall)) && !laterRecover
 	c.Check(okOrder, "C13.buffer", key+"/defer-order", try.Pos(), "the Writer restore is deferred after the handler (so it runs first) and both precede the body",
 		"the deferred Writer restore is missing, is registered before the recover handler (the catch list would render into the discarded buffer), or another recover is registered after the handler")
 	// copy: destination = saved writer, source = the buffer, one site
